@@ -13,6 +13,7 @@ package routing
 
 import (
 	"context"
+	"math"
 	"sort"
 	"testing"
 
@@ -175,6 +176,25 @@ func (g *vGraph) FetchNodeFeatures(_ context.Context,
 
 var _ Graph = (*vGraph)(nil)
 
+// vRecGraph records every node whose channels findPath asks for: one call
+// per expansion of a pivot (addGraphPolicies), i.e. the order in which nodes
+// are popped from the heap, target first (plus the balance pre-check for
+// self, which the caller strips).
+type vRecGraph struct {
+	*vGraph
+	evs *[][]uint64
+}
+
+func (g *vRecGraph) ForEachNodeDirectedChannel(ctx context.Context,
+	nodePub route.Vertex, cb func(*graphdb.DirectedChannel) error,
+	reset func()) error {
+
+	*g.evs = append(*g.evs, []uint64{0, uint64(g.idx[nodePub])})
+	return g.vGraph.ForEachNodeDirectedChannel(ctx, nodePub, cb, reset)
+}
+
+var _ Graph = (*vRecGraph)(nil)
+
 // edges flattens the graph (incl. hint channels) into directed policies.
 func (g *vGraph) edges() []vEdgeJ {
 	var es []vEdgeJ
@@ -319,6 +339,16 @@ type vRow struct {
 	Prob      float64  `json:"-"`
 	final     *route.Hop
 
+	// search trace (C19b): what can be observed of findPath's main loop from
+	// inside the package.  Evs is the interleaved sequence of
+	//   [0, v]                              pivot v is expanded (finalised)
+	//   [1, from, to, amtToSend, cap, bits] processEdge asked the probability
+	//                                       source; bits = Float64bits(answer)
+	Evs         [][]uint64 `json:"evs,omitempty"`
+	Attempt     uint64     `json:"attempt"`
+	MinProbBits uint64     `json:"minprobbits"`
+	HintChans   []uint64   `json:"hintchans,omitempty"`
+
 	// getedge rows
 	Local   bool     `json:"local,omitempty"`
 	Net     uint64   `json:"net,omitempty"`
@@ -373,9 +403,8 @@ func (c *vCase) run(ci int, variant string) *vRow {
 	// Same shape as the probability source that routerrpc builds for
 	// QueryRoutes (ignored nodes / pairs answer 0), mission control being
 	// replaced by a seeded table.
-	probSrc := func(from, to route.Vertex, _ lnwire.MilliSatoshi,
-		_ btcutil.Amount) float64 {
-
+	var evs [][]uint64
+	probSrc0 := func(from, to route.Vertex) float64 {
 		if _, ok := ignN[from]; ok {
 			return 0
 		}
@@ -386,6 +415,22 @@ func (c *vCase) run(ci int, variant string) *vRow {
 			return p
 		}
 		return 1
+	}
+	probSrc := func(from, to route.Vertex, a lnwire.MilliSatoshi,
+		capacity btcutil.Amount) float64 {
+
+		p := probSrc0(from, to)
+		evs = append(evs, []uint64{1, uint64(g.idx[from]),
+			uint64(g.idx[to]), uint64(a), uint64(capacity),
+			math.Float64bits(p)})
+		return p
+	}
+	row.Attempt = c.attempt
+	row.MinProbBits = math.Float64bits(c.minProb)
+	for _, ch := range g.chans {
+		if ch.Hint {
+			row.HintChans = append(row.HintChans, ch.ID)
+		}
 	}
 
 	restr := &RestrictParams{
@@ -426,17 +471,26 @@ func (c *vCase) run(ci int, variant string) *vRow {
 
 	path, prob, err := findPath(
 		&graphParams{
-			graph:           g,
+			graph:           &vRecGraph{vGraph: g, evs: &evs},
 			additionalEdges: g.additional(c.self),
 			bandwidthHints:  &vHints{m: c.hints},
 		},
 		restr, cfg, g.nodes[c.self], g.nodes[c.src], g.nodes[c.dst],
 		lnwire.MilliSatoshi(c.amt), 0, finalExpiry,
 	)
+	// The balance pre-check for self also walks self's channels; it is not
+	// an expansion.
+	if c.src == c.self && len(evs) > 0 && evs[0][0] == 0 {
+		evs = evs[1:]
+	}
+	row.Evs = evs
 	if err != nil {
 		row.Kind = "noroute"
 		row.Err = err.Error()
-		row.Edges = nil
+		if err != errNoPathFound || len(evs) == 0 {
+			row.Edges = nil
+			row.Evs = nil
+		}
 		return row
 	}
 	rt, err := newRoute(g.nodes[c.src], path, c.height, fin, nil)
